@@ -2206,7 +2206,9 @@ func imageResolution(tokens []Token, _ string) pr.CssProperty {
 	}
 	token := tokens[0]
 	value, ok := getResolution(token)
-	if !ok {
+	if !ok || value <= 0 {
+		// a resolution is never negative, and the image sizes
+		// are divided by it
 		return nil
 	}
 	return pr.FToV(pr.Fl(value))
